@@ -392,7 +392,7 @@ def check_coder_state():
     for state in (CoderState(False, 2), CoderState(False, 2)):
         state.switch_subset_context(1)
         raises(TypeError, state.add_bitmap_link)  # next_bitmapped_descriptor is None
-        raises(TypeError, state.recall_bitmap)  # iter(None)
+        raises(PyBufrKitErrorType, state.recall_bitmap)  # no bitmap is defined for reuse
         raises(PyBufrKitErrorType, state.build_bitmapped_descriptors, [0])
         state.mark_back_reference_boundary()
         assert state.back_reference_boundary == 0
